@@ -45,7 +45,8 @@ Clauses(r) ==
   IN  (IF c02 THEN {} ELSE {"C02"}) \cup (IF c03 THEN {} ELSE {"C03"}) \cup (IF c08 THEN {} ELSE {"C08"})
       \cup (IF c13 THEN {} ELSE {"C13"}) \cup (IF c14 THEN {} ELSE {"C14"}) \cup (IF c16 THEN {} ELSE {"C16"})
 
-SetToSeq(S) == CHOOSE f \in [1..Cardinality(S) -> S] : \A i, j \in 1..Cardinality(S) : i # j => f[i] # f[j]
+RECURSIVE SetToSeq(_)
+SetToSeq(S) == IF S = {} THEN <<>> ELSE LET x == CHOOSE x \in S : TRUE IN <<x>> \o SetToSeq(S \ {x})
 
 VARIABLE l
 Init == l = 1
